@@ -304,3 +304,20 @@ fn k_scribble_direct() { scribble(false); }
 #[kani::proof]
 #[kani::unwind(9)]
 fn k_scribble_indirect() { scribble(true); }
+
+/// K-complete (all u16 x u16): the hand model of the bitflags type `DescFlags` used in the Verus units
+/// (contains = a & b == b, remove = a & !b, union = a | b, empty = 0, NEXT/WRITE/INDIRECT = 1/2/4)
+#[kani::proof]
+fn stub_descflags() {
+    let a: u16 = kani::any();
+    let b: u16 = kani::any();
+    let fa = DescFlags::from_bits_retain(a);
+    let fb = DescFlags::from_bits_retain(b);
+    assert!(fa.contains(fb) == (a & b == b), "R6: DescFlags::contains model");
+    let mut r = fa;
+    r.remove(fb);
+    assert!(r.bits() == a & !b, "R6: DescFlags::remove model");
+    assert!((fa | fb).bits() == a | b, "R6: DescFlags `|` model (union)");
+    assert!(DescFlags::empty().bits() == 0, "R6: DescFlags::empty model");
+    assert!(DescFlags::NEXT.bits() == 1 && DescFlags::WRITE.bits() == 2 && DescFlags::INDIRECT.bits() == 4, "R6: flag constants");
+}
